@@ -146,7 +146,7 @@ Definition keyword (lit : string) : tok :=
   else if String.eqb u "MISSING" then MISSING
   else if String.eqb u "GAP" then GAP
   else if String.eqb u "MATRIX" then MATRIX
-  else if String.eqb u "END" then END
+  else if String.eqb u "END" || String.eqb u "ENDBLOCK" then END   (* ENDBLOCK: after the fix d0ed28a *)
   else IDENT.
 Definition classify (lit : string) : tok :=
   match parse_int lit with Some _ => NUMERIC | None => keyword lit end.
